@@ -9,6 +9,7 @@ import (
 	"fmt"
 	"io"
 	"strings"
+	"sync"
 	"time"
 
 	"github.com/cloudwego/eino/components/tool"
@@ -46,12 +47,25 @@ type c13Case struct {
 	Siblings   int      `json:"siblings"`         // parallel siblings next to the failing node
 	CoFail     int      `json:"coFail,omitempty"` // the first CoFail siblings fail too, in the same step, with the same error value
 	AsCustom   bool     `json:"asCustom"`         // leaf is a custom error type matched with errors.As
+	// the panic families (c13_panic.go); kind = statepanic | streampanic
+	Builder    string     `json:"builder,omitempty"`    // statepanic: the innermost graph is a graph | chain (Parallel) | workflow
+	Site       string     `json:"site,omitempty"`       // statepanic: where the node fails: ps (inside the ProcessState handler) | ps-after (second ProcessState call) | body-after-ps | body
+	PanicVal   string     `json:"panicVal,omitempty"`   // string | error | runtime (nil-map write)
+	SibUse     []string   `json:"sibUse,omitempty"`     // statepanic, per sibling: how it uses the state: none | ps | ps2 | post | pre
+	StateLevel int        `json:"stateLevel,omitempty"` // statepanic: the level whose graph owns the state
+	SrcKind    string     `json:"srcKind,omitempty"`    // streampanic: the node before the failing one: s | t (channel-backed stream) | i (control)
+	CloseStyle string     `json:"closeStyle,omitempty"` // streampanic: how a stream-consuming body treats its input: defer | early | drain | none
+	PipeInput  bool       `json:"pipeInput,omitempty"`  // collect/transform: the caller's input stream is channel-backed
+	PreStream  bool       `json:"preStream,omitempty"`  // enclosing levels: `pre` streams
+	Events     []c13Event `json:"events,omitempty"`     // what the oracle's step model reads
+	Order      []string   `json:"order,omitempty"`
 }
 
 type c13Obs struct {
 	Is        bool     `json:"is"`
 	Path      []string `json:"path"`
 	Interrupt bool     `json:"interrupt"`
+	Text      string   `json:"text,omitempty"` // start of the error message (panic families)
 }
 
 // ---- error values ----
@@ -61,8 +75,11 @@ type c13Custom struct{ id int }
 func (c *c13Custom) Error() string { return fmt.Sprintf("custom-%d", c.id) }
 
 var c13Leaves = map[int]error{}
+var c13LeavesMu sync.Mutex // co-failing nodes build their errors concurrently
 
 func c13Leaf(id int, custom bool) error {
+	c13LeavesMu.Lock()
+	defer c13LeavesMu.Unlock()
 	if id == 1000 {
 		return compose.ErrExceedMaxSteps
 	}
@@ -229,13 +246,21 @@ func c13Graph(c *c13Case, lvl int, cancel context.CancelFunc) (*compose.Graph[st
 func c13RunImpl(c *c13Case) (obs *c13Obs, class string) {
 	ctx, cancel := context.WithCancel(context.Background())
 	defer cancel()
-	g, opts, err := c13Graph(c, 0, cancel)
-	if err != nil {
-		return nil, "build-error:" + err.Error()
-	}
-	r, err := g.Compile(ctx, opts...)
-	if err != nil {
-		return nil, "compile-error:" + err.Error()
+	var r compose.Runnable[string, string]
+	if c13IsPanicFamily(c.Kind) {
+		var err error
+		if r, err = c13PCompile(ctx, c, newC13Sync()); err != nil {
+			return nil, "compile-error:" + err.Error()
+		}
+	} else {
+		g, opts, err := c13Graph(c, 0, cancel)
+		if err != nil {
+			return nil, "build-error:" + err.Error()
+		}
+		r, err = g.Compile(ctx, opts...)
+		if err != nil {
+			return nil, "compile-error:" + err.Error()
+		}
 	}
 	var runErr error
 	finished := false
@@ -260,13 +285,28 @@ func c13RunImpl(c *c13Case) (obs *c13Obs, class string) {
 		o.Path = append(o.Path, p...)
 	}
 	_, o.Interrupt = compose.ExtractInterruptInfo(runErr)
+	if c13IsPanicFamily(c.Kind) {
+		if o.Text = runErr.Error(); len(o.Text) > 240 {
+			o.Text = o.Text[:240]
+		}
+	}
 	return o, "error"
 }
 
 func c13Call(ctx context.Context, c *c13Case, r compose.Runnable[string, string], out *error) bool {
 	var runErr error
 	defer func() { *out = runErr }()
-	return vh.WithTimeout(20*time.Second, func() {
+	limit := 20 * time.Second
+	if c13IsPanicFamily(c.Kind) {
+		limit = 10 * time.Second
+	}
+	input := func() *schema.StreamReader[string] {
+		if c.PipeInput {
+			return c13PipeOf("x", "y")
+		}
+		return schema.StreamReaderFromArray([]string{"x", "y"})
+	}
+	return vh.WithTimeout(limit, func() {
 		switch c.Paradigm {
 		case "stream":
 			var sr *schema.StreamReader[string]
@@ -275,10 +315,10 @@ func c13Call(ctx context.Context, c *c13Case, r compose.Runnable[string, string]
 				runErr = c13Drain(sr)
 			}
 		case "collect":
-			_, runErr = r.Collect(ctx, schema.StreamReaderFromArray([]string{"x", "y"}))
+			_, runErr = r.Collect(ctx, input())
 		case "transform":
 			var sr *schema.StreamReader[string]
-			sr, runErr = r.Transform(ctx, schema.StreamReaderFromArray([]string{"x", "y"}))
+			sr, runErr = r.Transform(ctx, input())
 			if runErr == nil {
 				runErr = c13Drain(sr)
 			}
@@ -574,7 +614,7 @@ func c13One(ctx *vh.Ctx, c *c13Case) error {
 }
 
 func runC13(ctx *vh.Ctx) error {
-	ctx.Res.Rule = "random failure scenarios: nesting depth 0-4, failing lambda kind x calling paradigm x trigger mode per level x error shape (leaf / %w chains / panic / post-handler / step limit / cancellation); non-trivial = at least one nesting level; distinct by (kind, lambda kind, paradigm, depth, error shape, modes, siblings)"
+	ctx.Res.Rule = "random failure scenarios: nesting depth 0-4, failing lambda kind x calling paradigm x trigger mode per level x error shape (leaf / %w chains / panic / post-handler / step limit / cancellation); non-trivial = at least one nesting level; distinct by (kind, lambda kind, paradigm, depth, error shape, modes, siblings); plus the panic families statepanic (graphs/chains/workflows with state: failing inside the ProcessState handler while siblings of the step use the state; non-trivial = at least one sibling) and streampanic (channel-backed stream inputs, close styles, several failing lanes, run in a child process), distinct by all their case fields"
 	if ctx.Replay != nil {
 		var c c13Case
 		if err := json.Unmarshal(ctx.Replay, &c); err != nil {
@@ -592,6 +632,14 @@ func runC13(ctx *vh.Ctx) error {
 			}
 			return nil
 		}
+		if c.Kind == "statepanic" {
+			_, err := c13StateOne(ctx, &c)
+			return err
+		}
+		if c.Kind == "streampanic" {
+			_, err := c13StreamBatch(ctx, []*c13Case{&c})
+			return err
+		}
 		return c13One(ctx, &c)
 	}
 	n := ctx.N(3000, 20000)
@@ -600,6 +648,9 @@ func runC13(ctx *vh.Ctx) error {
 		if err := c13One(ctx, c); err != nil {
 			return err
 		}
+	}
+	if err := c13RunPanicFamilies(ctx); err != nil {
+		return err
 	}
 	for _, par := range []string{"invoke", "stream", "collect", "transform"} {
 		for calls := 0; calls < 3; calls++ {
